@@ -120,3 +120,39 @@ pub fn c14_urldecode_ref<const N: usize>(classes: u8) {
     kani::cover!(r.is_err() || N == 20, "reject reachable");
     std::mem::forget(r);
 }
+
+
+/// 19 fixed raw units ('a') and ONE arbitrary unit (raw ASCII, two-byte char, or %XY) at the
+/// front or at the back: cheap (concrete offsets) and covers every single-unit decoding rule
+/// inside an otherwise well-formed 20-byte identifier.
+pub fn c14_urldecode_one_free(front: bool) {
+    let mut buf = [0u8; 72];
+    let mut n = 0usize;
+    let mut val = None;
+    if front {
+        val = push_unit(&mut buf, &mut n, 3);
+    }
+    let mut i = 0;
+    while i < 19 {
+        buf[n] = b'a';
+        n += 1;
+        i += 1;
+    }
+    if !front {
+        val = push_unit(&mut buf, &mut n, 3);
+    }
+    let s = unsafe { std::str::from_utf8_unchecked(&buf[..n]) };
+    let r = urldecode_20_bytes(s);
+    match &r {
+        Ok(v) => {
+            assert!(val.is_some(), "malformed identifier accepted");
+            let k = if front { 0 } else { 19 };
+            assert!(Some(v[k]) == val, "identifier byte decoded wrongly");
+            assert!(v[if front { 19 } else { 0 }] == b'a', "fixed byte decoded wrongly");
+        }
+        Err(_) => assert!(val.is_none(), "well-formed 20-byte identifier rejected"),
+    }
+    kani::cover!(r.is_ok(), "accepted");
+    kani::cover!(r.is_err(), "rejected");
+    std::mem::forget(r);
+}
